@@ -146,6 +146,8 @@ def verify_function(world, contract, budget=None, tier='quick'):
         rep.seconds = time.time() - t0
         return rep
     world.current_contract = contract
+    from contracts import _util
+    _util.obj.world = world
     world.trusted_used = set()
     world.inlined = set()
     try:
@@ -210,12 +212,19 @@ def _run_path(world, c, params, tag, it, path, rep, first):
     fnode = c.fn_node
     fn = FuncRef(c.module, fnode, c.qualname)
     fr = Frame(module=c.module)
+    fr.world_state = world.module_state
+    world.module_state.clear()
     # bind parameters
     env = {}
     for name, t in params.items():
         env[name] = make_param(name, t, path)
     for name, v in c.env.items():
-        fr.vars[name] = v(path) if getattr(v, 'is_factory', False) else v
+        val = v(name, path) if getattr(v, 'is_factory', False) else v
+        if name.startswith('global:'):
+            world.module_state[(c.module.name, name[7:])] = val
+            it.ghost_vars['G_' + name[7:]] = val
+        else:
+            fr.vars[name] = val
     a = fnode.args
     formal = [p.arg for p in a.posonlyargs + a.args] + \
         [p.arg for p in a.kwonlyargs]
@@ -245,6 +254,13 @@ def _run_path(world, c, params, tag, it, path, rep, first):
             it.ghost_vars[name] = env[name]     # ghost parameter
     old = Frame(module=c.module)
     old.vars.update(fr.vars)
+    for nm, v in list(fr.vars.items()) + [
+            (k[1], v) for k, v in world.module_state.items()
+            if k[0] == c.module.name]:
+        if isinstance(v, SMapCell):
+            old.vars['OLD_' + nm] = v.m
+        elif isinstance(v, MList):
+            old.vars['OLD_' + nm] = v.seq
     old.vars.update(it.ghost_vars)
     old.vars.update(world.spec_helpers(it))
     for r in c.requires:
@@ -283,6 +299,9 @@ def _run_path(world, c, params, tag, it, path, rep, first):
     if gen:
         post.vars['out'] = it.out.seq
     post.vars['calls'] = tuple(it.calls)
+    for (mod, nm), v in world.module_state.items():
+        if mod == c.module.name:
+            post.vars['NEW_' + nm] = v
     post.vars.update(it.ghost_vars)
     sfx = ':' + tag if tag else ''
     if outcome == 'return' and getattr(c, 'cover_mode', False):
@@ -293,7 +312,16 @@ def _run_path(world, c, params, tag, it, path, rep, first):
         return
     if outcome == 'return':
         for j, e in enumerate(c.ensures):
-            g = world.spec_eval(it, e, post)
+            try:
+                g = world.spec_eval(it, e, post)
+            except RaiseSig as rs:
+                # the postcondition is not even well-defined in this state
+                ob = path.prove(False, '%s:post:%d%s' % (c.short, j + 1, sfx),
+                                'post', fnode.lineno, assume_after=False)
+                ob.text = e
+                ob.detail = 'postcondition raised %r in this state' % (
+                    rs.exc,)
+                continue
             it.drain_axioms()
             ob = path.prove(it.truth(g), '%s:post:%d%s' % (c.short, j + 1,
                                                            sfx),
